@@ -72,6 +72,8 @@ let mop_of = function
   | ["clear"; r] -> MClear (nat r)
   | ["clearw"; w] -> MClearW (nat w)
   | ["ptreq"; a; b] -> MPtrEq (nat a, nat b)
+  | ["allocw"; r; k; s0; s1; s2; w0; w1] ->
+    MAllocWith (nat r, kind_of k, [opt nat s0; opt nat s1; opt nat s2], [opt nat w0; opt nat w1])
   | l -> failwith ("bad micro op: " ^ String.concat " " l)
 
 let op_of_line line =
